@@ -25,7 +25,8 @@ CanNest(p, c) ==
     CASE p \in {"UL", "OL"}    -> c = "LI"
       [] p = "P"               -> c \in TextKinds \cup InlineKinds \cup {"BR", "HIN", "IMG", "SKS", "CMT"}
       [] p = "H"               -> c \in TextKinds \cup {"INL", "A"}
-      [] p = "AJ"              -> c \in {"T", "t", "INL"}
+      [] p = "AJ"              -> c \in {"T", "t", "INL", "IMG"}                        \* zoom / gallery links around a picture
+      [] p = "A"               -> c \in TextKinds \cup {"INL", "BR", "IMG"}            \* a linked picture
       [] p \in InlineKinds     -> c \in TextKinds \cup {"INL", "BR"}
       [] p = "PRE"             -> c \in TextKinds \cup {"INL", "BR", "DIV", "P", "UL", "OL"}  \* highlighters put block lines into pre
       [] p = "HIN"             -> c \in TextKinds \cup {"INL"}
